@@ -221,6 +221,8 @@ def run(ctx: Ctx) -> None:
     src += EXTRA
     conds += [Cond("twin", "refute", 60), Cond("canary_retry_limit", "refute", 180)]
     ctx.ch_batch("c19", src, conds)
+    from props import C19_sched
+    C19_sched.run(ctx)
     ctx.functions_encoded += ["Task._call (mode switch), Task.parallelize/distribute_calls", "ConcurrentInvocation.result / ConcurrentInvocationGroup.results",
                               "DistributedInvocation.run/result, DistributedInvocationGroup.results", "BaseOrchestrator.set_invocation_retry/get_invocations_to_run/route_call",
                               "Pynenc.direct_task wrapper"]
